@@ -337,7 +337,7 @@ type roundOpts struct {
 	roundFault  int  // 1: the round timeout counter moves during the collection
 }
 
-var failOps = []string{"", "multiread", "multidelete", "read", "write"}
+var failOps = []string{"multiread", "multidelete"}
 
 func (g *G) opRound(st sim.Step) {
 	nm := len(g.W.Miners)
@@ -355,7 +355,9 @@ func (g *G) opRound(st sim.Step) {
 		o.slowAt, o.slowFor = int(k), 250*time.Millisecond
 	}
 	if k := st.Int(4, 0); k > 0 {
-		o.failOp, o.failN = failOps[int(k)%len(failOps)], 1+int(st.Int(5, 0))%3
+		// every store operation of the chosen kind fails during this generation (failing only
+		// the first n would depend on the order in which the generator's goroutines reach the store)
+		o.failOp, o.failN = failOps[int(k)%len(failOps)], 1 << 20
 	}
 	if k := st.Int(6, 0); k > 0 {
 		o.roundFault = 1
@@ -464,9 +466,11 @@ func (g *G) generate(o roundOpts, rn int64, gen int) *cand {
 	poolBefore := len(keysBefore)
 	g.inGen = true
 	b, err := mc.GenerateRoundBlock(ctx, mr)
+	// the generator's clean-up goroutines (deleteTxns) belong to the generation: let them
+	// finish before the store fault is disarmed, whatever the Go scheduler does
+	g.quiesce()
 	g.inGen = false
 	g.failLeft, g.slowAt = 0, 0
-	g.quiesce()
 	g.poolDiff(keysBefore)
 	if err != nil || b == nil {
 		g.genErrs++
@@ -777,8 +781,17 @@ func (g *G) checkBlock(gen int, b, nb *block.Block) (offenders []string) {
 			offenders = append(offenders, t.Hash)
 		}
 		if p != nil {
-			if p.T.Fee != t.Fee || p.T.Value != t.Value || p.T.ToClientID != t.ToClientID || p.T.TransactionData != t.TransactionData || p.T.Nonce != t.Nonce {
-				g.violate("block", "invalid-txn-included/altered", fmt.Sprintf("round %d txn %d (%s): differs from what the client signed", rn, i, fnOrType(t)))
+			// the transaction hash (what the client signs) does not cover the fee (known finding C30):
+			// several submissions can share a hash; the included one must equal one of them
+			same := false
+			for _, q := range g.subs {
+				if q.T.Hash == t.Hash && q.Accepted && q.T.Fee == t.Fee && q.T.Value == t.Value && q.T.ToClientID == t.ToClientID && q.T.TransactionData == t.TransactionData && q.T.Nonce == t.Nonce && q.T.CreationDate == t.CreationDate && q.T.Signature == t.Signature {
+					same = true
+					break
+				}
+			}
+			if !same {
+				g.violate("block", "invalid-txn-included/altered", fmt.Sprintf("round %d txn %d (%s): equals none of the submissions with its hash (first: fee %d/%d value %d/%d to %.8s/%.8s nonce %d/%d data %q/%q)", rn, i, fnOrType(t), p.T.Fee, t.Fee, p.T.Value, t.Value, p.T.ToClientID, t.ToClientID, p.T.Nonce, t.Nonce, p.T.TransactionData, t.TransactionData))
 			}
 			if _, exempt := w.C.ChainConfig.TxnExempt()[fnOf(t)]; !exempt && w.C.IsFeeEnabled() {
 				if mf := g.minFee(t); t.Fee < mf {
@@ -958,7 +971,7 @@ func (g *G) finalize(gb *genBlock, failStore bool) {
 	}
 	w.C.SetLatestFinalizedBlock(gb.B)
 	if failStore {
-		g.failOp, g.failLeft = "multidelete", 1
+		g.failOp, g.failLeft = "multidelete", 1 << 20
 	}
 	ferr := mc.FinalizeBlock(w.Ctx, gb.B)
 	g.failLeft = 0
